@@ -331,13 +331,17 @@ def _abbrev(x, maxlen=40, depth=0):
 # known findings (committed file, never written at run time)
 
 def load_known_findings():
-    path = os.path.join(VERIF, 'known_findings.jsonl')
+    paths = [os.path.join(VERIF, 'known_findings.jsonl')]
+    d = os.path.join(VERIF, 'known_findings.d')
+    if os.path.isdir(d):
+        paths += [os.path.join(d, f) for f in sorted(os.listdir(d)) if f.endswith('.jsonl')]
     out = []
-    if os.path.exists(path):
-        for line in open(path):
-            line = line.strip()
-            if line and not line.startswith('#'):
-                out.append(json.loads(line))
+    for path in paths:
+        if os.path.exists(path):
+            for line in open(path):
+                line = line.strip()
+                if line and not line.startswith('#'):
+                    out.append(json.loads(line))
     return out
 
 
